@@ -47,6 +47,7 @@ def run(ctx: Ctx) -> None:
     ctx.rule("C09.R6", "_handle_events dispatches all eight h2 events; WINDOW_UPDATE (stream and connection level), INITIAL_WINDOW_SIZE changes and RST_STREAM reach unblock + wake-up", floor=14)
     ctx.rule("C09.R7", "received DATA is acknowledged with its flow-controlled length on every non-exceptional path of the DataReceived arm", floor=2)
     ctx.rule("C09.R8", "every h2 state change that produces bytes is followed by _flush() on every normal path of the same function", floor=8)
+    ctx.rule("C09.R11", "the send task owns the send bookkeeping: a stream's buffer and priority entry are removed only by _send_data (after END_STREAM or in its error handler) - any other task removing them makes the suspended send task fail with KeyError and stops every stream", floor=2)
     ctx.rule("C09.R10", "a stream inserted into the priority tree starts blocked (it has nothing to send yet): every insert_stream is followed by block() of the same id, otherwise the send task picks a stream without data/buffer and dies", floor=2)
     ctx.rule("C09.R9", "body data is queued in order: one buffer per stream, push appends at the end, pop removes from the front", floor=4)
 
@@ -147,6 +148,16 @@ def run(ctx: Ctx) -> None:
     ctests = [n.id for n in cfg.nodes if n.kind == "test" and "self.stream_buffers[stream_id].complete" in norm(n.ast.test)]
     wit = cfg.must_pass(cfg.entry, [cfg.exit], lambda n: n.id in ctests, skip_labels=("exc", "uncaught", "catch")) if ctests else [cfg.entry]
     ctx.check("C09.R5", w, "completion is tested on every normal path of _send_data (END_STREAM needs no flow-control credit)", wit is None, "a path through _send_data (e.g. an early return when the window is exhausted) skips the completion test: END_STREAM for an already drained buffer waits for a WINDOW_UPDATE that may never come: " + explain(cfg, wit), sd)
+    rem = []
+    for name_, fn_ in repo.methods(M, "H2Protocol").items():
+        for n_ in walk_local(fn_):
+            if isinstance(n_, ast.Delete) and any("self.stream_buffers[" in norm(t_) for t_ in n_.targets):
+                rem.append((name_, "del self.stream_buffers[...]", n_))
+            elif isinstance(n_, ast.Call) and call_name(n_) in ("self.priority.remove_stream", "self.stream_buffers.pop", "self.stream_buffers.clear"):
+                rem.append((name_, call_name(n_), n_))
+    for name_, what_, n_ in rem:
+        ctx.check("C09.R11", f"{M}:H2Protocol.{name_}", f"{what_} only in _send_data", name_ == "_send_data", f"H2Protocol.{name_} removes send bookkeeping ({what_}): a send task suspended in a write for that stream resumes into KeyError (also inside its own error handler) and dies - all streams stop", n_)
+    ctx.check("C09.R11", f"{M}:H2Protocol._send_data", "removal sites present", len([r for r in rem if r[0] == "_send_data"]) >= 4, f"removal sites: {[(a, b) for a, b, _ in rem]}", sd)
     comp = repo.func(M, "StreamBuffer.complete")
     rets = [n for n in walk_local(comp) if isinstance(n, ast.Return)]
     ok = len(rets) == 1
